@@ -50,6 +50,7 @@ for pth in sorted(glob.glob(os.path.join(VERIF, "selftest", "variants", "*.patch
         bad += 0 if ok else 1
     finally:
         subprocess.run(["git", "-C", repo, "checkout", "--", "."])
+        subprocess.run(["git", "-C", repo, "clean", "-fdq", "-e", "target"])   # files a patch created
 json.dump(report, open(os.path.join(VERIF, "selftest", "REPORT.json"), "w"), indent=1)
 print("variants: %d, unexpected: %d" % (len(report), bad))
 sys.exit(1 if bad else 0)
